@@ -104,6 +104,38 @@ Next ==
 Spec == Init /\ [][Next]_<<vars, ev>>
 
 ---------------------------------------------------------------------------
+(* beyond C18 (bin/extras, X03): the buffer endpoints of src/endpoints/buffer.c on top of the byte buffer.
+   sink_to_buffer + sink_put_chunk(d)            = Add(d), reporting the count
+   source_from_buffer + source_get_chunk(n)      = exactly n octets; if fewer are unread they are all
+                                                   consumed and the source's end (-1) is reported
+   source_from_buffer + source_get_chunk_atmost  = ConsumeAtMost
+   Observation as for the byte buffer calls; rc = count / -1 / -22 (N = 0 is refused as invalid).          *)
+SinkPut(d) == /\ valid
+              /\ IF Len(d) = 0 THEN UNCHANGED vars /\ ev' = Ev("sinkput", <<0>>, Proj(-22))
+                 ELSE IF Len(d) <= size - Used
+                 THEN /\ filled' = filled \o d /\ UNCHANGED <<valid, size, offset>>
+                      /\ ev' = Ev("sinkput", <<Len(d)>> \o d, Proj2(Len(d), size, filled \o d, offset))
+                 ELSE UNCHANGED vars /\ ev' = Ev("sinkput", <<Len(d)>> \o d, Proj(-1))
+SrcGet(n) == /\ valid
+             /\ IF n = 0 THEN UNCHANGED vars /\ ev' = Ev("srcget", <<0>>, Proj(-22) \o <<-7>>)
+                ELSE IF n <= Used - offset
+                THEN /\ offset' = offset + n /\ UNCHANGED <<valid, size, filled>>
+                     /\ ev' = Ev("srcget", <<n>>, Proj2(n, size, filled, offset + n) \o <<-7>> \o Take(Unread, n))
+                ELSE /\ offset' = Used /\ UNCHANGED <<valid, size, filled>>
+                     /\ ev' = Ev("srcget", <<n>>, <<-1, size, Used, Used, 0>> \o filled \o <<-7>>)
+SrcGetAtMost(n) == /\ valid /\ n > 0
+                   /\ LET rest == Used - offset
+                          k == MinOf(n, rest)
+                      IN IF rest > 0
+                         THEN /\ offset' = offset + k /\ UNCHANGED <<valid, size, filled>>
+                              /\ ev' = Ev("srcgetam", <<n>>, Proj2(k, size, filled, offset + k) \o <<-7>> \o Take(Unread, k))
+                         ELSE UNCHANGED vars /\ ev' = Ev("srcgetam", <<n>>, Proj(-1) \o <<-7>>)
+NextX == \/ Next
+         \/ \E d \in SeqsUpTo(Alphabet, size + 1) : SinkPut(d)
+         \/ \E n \in 0..size + 1 : SrcGet(n) \/ SrcGetAtMost(n)
+SpecX == Init /\ [][NextX]_<<vars, ev>>
+
+---------------------------------------------------------------------------
 (* C18 as stated, checked on the model (E0) *)
 BoundsInv == offset <= Used /\ Used <= size /\ (valid => size > 0)
 
